@@ -434,6 +434,57 @@ theorem C08_transitive (ra rb rc : IntTy) (ha : ra ∈ IntTy.all) (hb : rb ∈ I
     rw [key .eq ra rc ha hc hac ua uc pa pc va vc hva hvc f3]
     exact x.trans y
 
+/-- **C08, mutual consistency on clean inputs** (corollary of the exact-ordering theorem).  Under the hypotheses of
+`C08_compare_exact`, all six comparisons return a value without undefined behaviour, wrap-around or narrowing, and
+`==` iff not `!=`, `<` iff not `>=`, `<=` iff not `>`, and `q1 < q2` iff `q2 > q1` (likewise `q1 > q2` iff `q2 < q1`);
+`<` is the exact rational order. -/
+theorem C08_consistent_clean (r1 r2 : IntTy) (h1 : r1 ∈ IntTy.all) (h2 : r2 ∈ IntTy.all)
+    (hs : r1.signed = r2.signed) (u1 u2 : URat) (hu1 : u1.Pos) (hu2 : u2.Pos) (v1 v2 : Int)
+    (hv1 : r1.inRange v1) (hv2 : r2.inRange v2)
+    (hf : FitsCommon r1 r2 (URat.ratioL u1 u2) (URat.ratioR u1 u2) v1 v2) :
+    ∃ beq bne blt ble bgt bge : Bool,
+      cmp .eq r1 r2 (URat.ratioL u1 u2) (URat.ratioR u1 u2) v1 v2 = ⟨.ok beq, false, false⟩ ∧
+      cmp .ne r1 r2 (URat.ratioL u1 u2) (URat.ratioR u1 u2) v1 v2 = ⟨.ok bne, false, false⟩ ∧
+      cmp .lt r1 r2 (URat.ratioL u1 u2) (URat.ratioR u1 u2) v1 v2 = ⟨.ok blt, false, false⟩ ∧
+      cmp .le r1 r2 (URat.ratioL u1 u2) (URat.ratioR u1 u2) v1 v2 = ⟨.ok ble, false, false⟩ ∧
+      cmp .gt r1 r2 (URat.ratioL u1 u2) (URat.ratioR u1 u2) v1 v2 = ⟨.ok bgt, false, false⟩ ∧
+      cmp .ge r1 r2 (URat.ratioL u1 u2) (URat.ratioR u1 u2) v1 v2 = ⟨.ok bge, false, false⟩ ∧
+      beq = !bne ∧ blt = !bge ∧ ble = !bgt ∧
+      (cmp .gt r2 r1 (URat.ratioL u2 u1) (URat.ratioR u2 u1) v2 v1).val = .ok blt ∧
+      (cmp .lt r2 r1 (URat.ratioL u2 u1) (URat.ratioR u2 u1) v2 v1).val = .ok bgt ∧
+      (blt = true ↔ qval u1 v1 < qval u2 v2) := by
+  have key : ∀ op : CmpOp, cmp op r1 r2 (URat.ratioL u1 u2) (URat.ratioR u1 u2) v1 v2 =
+      ⟨.ok (op.eval (v1 * (URat.ratioL u1 u2 : Nat)) (v2 * (URat.ratioR u1 u2 : Nat))), false, false⟩ := by
+    intro op
+    unfold cmp
+    rw [usingCommon_ok r1 r2 h1 h2 hs _ _ v1 v2 hv1 hv2 hf]
+  refine ⟨_, _, _, _, _, _, key .eq, key .ne, key .lt, key .le, key .gt, key .ge, ?_, ?_, ?_, ?_, ?_, ?_⟩
+  · simp [CmpOp.eval]
+  · simp only [CmpOp.eval]
+    generalize v1 * (URat.ratioL u1 u2 : Nat) = A
+    generalize v2 * (URat.ratioR u1 u2 : Nat) = B
+    by_cases h : A < B
+    · have h2 : ¬ A ≥ B := by omega
+      simp [h, h2]
+    · have h2 : A ≥ B := by omega
+      simp [h, h2]
+  · simp only [CmpOp.eval]
+    generalize v1 * (URat.ratioL u1 u2 : Nat) = A
+    generalize v2 * (URat.ratioR u1 u2 : Nat) = B
+    by_cases h : A ≤ B
+    · have h2 : ¬ A > B := by omega
+      simp [h, h2]
+    · have h2 : A > B := by omega
+      simp [h, h2]
+  · have := (C08_mirror r1 r2 h1 h2 hs u1 u2 v1 v2 .lt (CmpOp.eval .lt (v1 * (URat.ratioL u1 u2 : Nat)) (v2 * (URat.ratioR u1 u2 : Nat)))).1
+      (by rw [key .lt])
+    exact this
+  · have := (C08_mirror r1 r2 h1 h2 hs u1 u2 v1 v2 .gt (CmpOp.eval .gt (v1 * (URat.ratioL u1 u2 : Nat)) (v2 * (URat.ratioR u1 u2 : Nat)))).1
+      (by rw [key .gt])
+    exact this
+  · rw [qval_left u1 u2 hu1 hu2, qval_right u1 u2 hu1 hu2]
+    exact eval_iff_rel .lt _ _ _ (commonScale_pos u1 u2 hu1 hu2)
+
 /-! ## `<=>` -/
 
 /-- **C08, `<=>` (full strength).**  If scaling each operand to the common unit does not overflow in the common rep,
